@@ -264,7 +264,7 @@ def classify_run(verdict, spec, case, res):
         allowed = ({"cycle"} if case["hasCycle"] else set()) | {"dup"}
     if spec.get("cancel", 0) > 0:
         allowed.add("ctx")
-    small = {k: spec[k] for k in ("imports", "req", "plan", "par", "seed", "cancel", "public", "shared", "reporter", "ovr", "collide") if k in spec}
+    small = {k: spec[k] for k in ("imports", "req", "plan", "par", "seed", "cancel", "public", "shared", "reporter", "ovr", "collide", "opts") if k in spec}
     cls = res["class"]
     if res.get("hung"):
         verdict.disagree("hang", small, "Compile did not return within the watchdog; stacks:\n" + res.get("stacks", "")[:3000])
@@ -458,7 +458,7 @@ def c05_runs(cases, tier, rng):
             variants.append((cis[0], c0["req"], p))
         for (ci, req, par) in variants:
             for s in seeds_for(nseeds):
-                for flavour in ({}, {"shared": True}, {"public": True}, {"collide": True}):
+                for flavour in ({}, {"shared": True}, {"public": True}, {"collide": True}, {"opts": True}):
                     if flavour and (s == 0 or (gi + par) % 3):  # flavours on a third of the matrix
                         continue
                     if flavour.get("collide") and (len(req) < 2 or c0.get("ovr")):
@@ -468,6 +468,14 @@ def c05_runs(cases, tier, rng):
                     r = {"id": rid, "case": ci, "group": gi, "imports": c0["imports"], "req": req, "plan": c0["plan"],
                          "par": par, "ovr": c0.get("ovr", False), "seed": s, "trace": True}
                     r.update(flavour)
+                    if r.get("opts"):
+                        if c0.get("ovr"):
+                            continue
+                        r["trace"] = False   # the standard descriptor.proto import is not part of the model's file set
+                        for rep_ in range(3):    # the same inputs again must give identical bytes
+                            r2 = dict(r); r2["id"] = rid; r2["seed"] = s + 11 * rep_; rid += 1
+                            runs.append(r2)
+                        continue
                     if r.get("collide"):
                         r["trace"] = False   # link failures are outside CompileExec.tla (Symbols.tla covers them)
                         for rep_ in range(4):   # repeat: the collision verdict must not depend on link overlap
@@ -483,12 +491,12 @@ def c05_compare(verdict, runs, res):
     groups = collections.defaultdict(list)
     for r in runs:
         if r["id"] in res:
-            groups[(r["group"], bool(r.get("public")), bool(r.get("collide")))].append(r)
+            groups[(r["group"], bool(r.get("public")), bool(r.get("collide")), bool(r.get("opts")))].append(r)
     for _key, rs in groups.items():
         ref = res[rs[0]["id"]]
         for r in rs[1:]:
             o = res[r["id"]]
-            small = {k: r[k] for k in ("imports", "req", "plan", "par", "seed", "public", "shared", "ovr", "collide") if k in r}
+            small = {k: r[k] for k in ("imports", "req", "plan", "par", "seed", "public", "shared", "ovr", "collide", "opts") if k in r}
             if (o["class"] == "ok") != (ref["class"] == "ok"):
                 verdict.disagree("nondeterministic:success", small, "class %s vs %s (par %s req %s)" % (o["class"], ref["class"], rs[0]["par"], rs[0]["req"]))
             elif o["class"] == "ok" and o["descs"] != ref["descs"]:
